@@ -33,6 +33,10 @@ import StorageModel.C12.Grammar
     / `UntypedSymbolNode.TypeTransform` (ast/node_convert.go, ast/node_symbol.go): a symbol that is
     not of bool type makes the enclosing node fail with a type error.
   * `T.eval` is `AndExprNode/OrExprNode/NotExprNode/BoolSymbolNode/BoolConstNode.EvalBool`.
+  * `queryT` selects by the `TransformShape` that /verif/extract regenerates from the bodies of the
+    typing / evaluation methods: only the `plain` forms (no rewrite of the typed tree) are
+    interpreted.  What the typed tree is, structurally, is stated in StorageModel/C12/Typed.lean
+    (`inorder`: the typed tree read in order is the written text without its parentheses).
 
   Whitespace and keyword case are handled one level below (StorageModel/C12/Lex.lean).
 -/
@@ -293,5 +297,14 @@ def query (sh : ListenerShape) (c : ParserNums) (isBool : α → Bool) (ts : Lis
     match transform isBool u with
     | none => .typeError
     | some t => .ok t
+
+/-- `ast.Parse` with the typing / evaluation code that /verif/extract found in package `ast`
+    (`TransformShape`: bodies of `BooleanLogicExprNode.TypeTransformBool`,
+    `UntypedNotExprNode.TypeTransformBool`, `EvalBool` of the typed nodes, the `transformTypes` glue).
+    `transform` / `T.eval` above follow the `plain` forms; for any other form the model has no
+    interpretation and answers nothing (and obligation `transform_is_plain` breaks). -/
+def queryT (tsh : TransformShape) (sh : ListenerShape) (c : ParserNums) (isBool : α → Bool)
+    (ts : List (Tok α)) : Option (Res α) :=
+  if tsh = plainTransform then some (query sh c isBool ts) else none
 
 end StorageModel.C12
